@@ -418,6 +418,10 @@ var proxyRefusalSeen int
 
 var replyTemplates = []string{
 	okHandshake,
+	"HTTP/1.1 101 Switching Protocols\r\nUpgrade: websocket\r\nConnection: Upgrade\r\nSec-WebSocket-Accept: $ACCEPT\r\nSec-WebSocket-Extensions: permessage-deflate; server_no_context_takeover; client_no_context_takeover; server_max_window_bits=16\r\n\r\n",
+	"HTTP/1.1 101 Switching Protocols\r\nUpgrade: websocket\r\nConnection: Upgrade\r\nSec-WebSocket-Accept: $ACCEPT\r\nSec-WebSocket-Extensions: permessage-deflate; server_no_context_takeover; client_no_context_takeover; client_max_window_bits=0; server_max_window_bits=\"7\"\r\n\r\n",
+	"HTTP/1.1 101 Switching Protocols\r\nUpgrade: websocket\r\nConnection: Upgrade\r\nSec-WebSocket-Accept: $ACCEPT\r\nSec-WebSocket-Extensions: permessage-deflate; server_no_context_takeover; client_no_context_takeover; server_max_window_bits=-1; client_max_window_bits=99999999999999999999\r\n\r\n",
+	"HTTP/1.1 101 Switching Protocols\r\nUpgrade: websocket\r\nConnection: Upgrade\r\nSec-WebSocket-Accept: $ACCEPT\r\nSec-WebSocket-Protocol: chat\r\nSec-WebSocket-Protocol: other\r\nSet-Cookie: a=b\r\nSec-WebSocket-Version: 13\r\n\r\n",
 	"HTTP/1.1 403 Forbidden\r\nContent-Length: 100\r\n\r\ndenied",
 	"HTTP/1.1 403 Forbidden\r\nTransfer-Encoding: chunked\r\n\r\n6\r\ndenied\r\n",
 	"HTTP/1.1 503 Service Unavailable\r\nTransfer-Encoding: chunked\r\n\r\n",
@@ -559,6 +563,14 @@ func genFuzzCase(t *rapid.T) FuzzCase {
 		}
 		if rapid.IntRange(0, 5).Draw(t, "sethost") == 0 {
 			c.Host = genHeaderValue(t)
+		}
+		if rapid.IntRange(0, 3).Draw(t, "origin_from_host") == 0 {
+			// an Origin that is a near copy of the Host: the default origin
+			// policy compares the two byte by byte
+			h := rapid.SampledFrom([]string{"a", "example.com", "example.com:8080", "[::1]:80"}).Draw(t, "ohost")
+			mb := rapid.SampledFrom([]string{"м", "é", "世", "𝄞", "\u212a", "\xff", "\xc3"}).Draw(t, "omb")
+			c.Host = h
+			c.Headers["Origin"] = []string{"http://" + rapid.SampledFrom([]string{h[:len(h)-1] + mb, h + mb, mb + h, strings.ToUpper(h), h[:len(h)/2], h + "%", h[:len(h)-1] + "%e9"}).Draw(t, "oform")}
 		}
 		if rapid.Bool().Draw(t, "subs") {
 			c.Subs = []string{"chat", "v2"}
